@@ -398,7 +398,9 @@ fn parent(prop_id: &str, tier: &str) -> i32 {
     let mut exhaustive_parts: Vec<String> = vec![];
     let mut per_profile: BTreeMap<String, u64> = BTreeMap::new();
     let mut gen_defects: Vec<String> = vec![];
+    let mut distinct_enum = 0u64;
     for r in &results {
+        distinct_enum += r.distinct_by_construction;
         evals += r.evals;
         nontrivial_cases += r.nontrivial_cases;
         *per_profile.entry(r.profile.clone()).or_insert(0) += r.evals;
@@ -439,7 +441,8 @@ fn parent(prop_id: &str, tier: &str) -> i32 {
     let all_complete = inconclusive.is_empty() && gen_defects.is_empty();
     let mut coverage = json!({
         "evaluations": evals,
-        "distinct_nontrivial": hashes.len(),
+        "distinct_nontrivial": hashes.len() as u64 + distinct_enum,
+        "distinct_nontrivial_enumerated": distinct_enum,
         "nontrivial_cases_counted_with_duplicates": nontrivial_cases,
         "rule": prop.rule,
         "samples": samples,
@@ -481,7 +484,7 @@ fn parent(prop_id: &str, tier: &str) -> i32 {
         prop.id,
         tier.name(),
         evals,
-        hashes.len(),
+        hashes.len() as u64 + distinct_enum,
         wall,
         seed
     );
@@ -506,7 +509,7 @@ fn parent(prop_id: &str, tier: &str) -> i32 {
         }
         return 2;
     }
-    if evals == 0 || hashes.len() < 2 {
+    if evals == 0 || (hashes.len() as u64 + distinct_enum) < 2 {
         println!(
             "INCONCLUSIVE property={} too few cases were executed",
             prop.id
